@@ -1,6 +1,7 @@
 import GomlVerif.Lemmas.GoCompLink
 import GomlVerif.Lemmas.GoCompScope
 import GomlVerif.Props.Dce
+import GomlVerif.Gen.GoCompTables
 /-!
 # The Go back end (`go/compile.rs`): theorems about its model `Model/GoCompile.lean`
 
@@ -38,6 +39,19 @@ namespace Goml.GoCompileProps
 open Goml Goml.Go Goml.GoCompile Goml.GoFrag Goml.GoComp
 open Goml.Sem (Val World Res Fail)
 open Goml.C01 (toG)
+
+/-- the anchors of `go/compile.rs`, `goast.rs`, `runtime.rs` extracted from the Rust text on every run
+    are the ones the model and the fragment were written against: the callee names the `ECall` arm
+    special-cases, `tast_ty_to_go_type` never answers `TVoid` (so the `TVoid` arm of `compile_fn`,
+    `compile_aexpr`, is dead and rightly not modelled), the two `gensym` prefixes, the runtime
+    functions in order, the set of lowering functions (a changed table stops the build) -/
+theorem tables_are_modelled :
+    Goml.Gen.gocompSpecialCallees = specialCallees ∧ Goml.Gen.gocompTyToGoMentionsVoid = false ∧
+    Goml.Gen.gocompGensymPrefixes = ["cond", "ret"] ∧
+    Goml.Gen.gocompRuntimeFns = runtimeFile.funcs.map (·.name) ∧
+    Goml.Gen.gocompLoweringFns = ["compile_aexpr_effect", "compile_aexpr_assign", "compile_aexpr", "compile_while",
+      "compile_match_branches", "compile_cexpr_effect", "compile_go", "compile_fn", "go_file"] := by
+  refine ⟨by decide, rfl, by decide, by decide +kernel, by decide⟩
 
 /-- **T1, function level.**  `G` is any set of function names of the file on which the decidable
     check `closedOK` succeeds (file-level name conditions + every member in the stage (a) fragment
